@@ -55,8 +55,9 @@ def run_unify(case):
     results = {}
     for order in ("ab", "ba"):
         with guard(failures, "build"):
-            A = ref_fs.build_lib_fs(case["a"])
-            B = ref_fs.build_lib_fs(case["b"])
+            # in the second round the structures have answered path queries while they were being built
+            A = ref_fs.build_lib_fs(case["a"], ask=(order == "ba"))
+            B = ref_fs.build_lib_fs(case["b"], ask=(order == "ba"))
         if failures:
             return {"failures": failures}
         recv, arg = (A, B) if order == "ab" else (B, A)
@@ -85,6 +86,16 @@ def run_unify(case):
                     failures.append(fail(sub, "paths_or_values", {"missing": missing, "extra": extra}))
                 elif got[1] != expected[1]:
                     failures.append(fail(sub, "sharing_partition_differs"))
+                elif order == "ba":
+                    # the same structures built without the interleaved queries, unified the same way, list the
+                    # same paths (what get_all_paths() itself should list after a unification is not judged here)
+                    A2, B2 = ref_fs.build_lib_fs(case["a"]), ref_fs.build_lib_fs(case["b"])
+                    B2.unify(A2)
+                    fresh = sorted(map(tuple, B2.get_all_paths()))
+                    aged = sorted(map(tuple, recv.get_all_paths()))
+                    if fresh != aged:
+                        failures.append(fail(sub, "get_all_paths_depends_on_history",
+                                             {"fresh": fresh[:4], "queried_while_built": aged[:4]}))
                 results[order] = got
     shared = set(pa0) & set(pb0) - {()}
     labels = ["unify", "compatible" if ok else "clash"]
